@@ -259,6 +259,15 @@ fx('two_wake_one', 'make_waiter(0,0); make_waiter(1,0)', ['WAKE_ONE()', 'WAKE_ON
 CXX_ = ['babylon/basic_executor.cpp']
 for _k, _nm in ((0, 'cancellable'), (1, 'future'), (2, 'task')):
     S('cx_seq_' + _nm, 'coro/cx_seq.cpp', {'assert': 'C13'}, std=20, defs=['VF_KIND=%d' % _k], extra=CXX_, models=['sc'], bound=8)
+def bcs(name, ts, final, **kw):
+    S('bc_' + name, 'coro/bc.cpp', {'assert': 'C13'}, std=20, defs=['VF_T%d=%s' % (i, t) for i, t in enumerate(ts)] + ['VF_FINAL=' + final], extra=CXX_, **kw)
+BCB = '; vf_check(resumed[1] == 0 && !bc[1]->canceled() && !proxy[1].awaiter(), 6)'     # (operations through the box inside vf_final are avoided: the epilogue's read cache does not follow stores through enumerated pointers)
+bcs('cancel_vs_new_wait', ['CANCEL(0)', 'START(1)'], 'vf_check(ret[0] == 1 && resumed[0] == 1 && bc[0]->canceled(), 4)' + BCB)
+bcs('finish_vs_new_wait', ['FINISH(0)', 'START(1)'], 'vf_check(ret[0] == 1 && resumed[0] == 0 && !bc[0]->canceled() && proxy[0].awaiter().address() == (void*)&frames[0], 4)' + BCB)
+# wait B is itself cancelled by its own thread right after it started: both awaiters resumed exactly once, each by its own trigger
+bcs('cancel_vs_new_wait_cancelled', ['CANCEL(0)', 'START(1);CANCEL(1)'], 'vf_check(ret[0] == 1 && ret[1] == 1 && resumed[0] == 1 && resumed[1] == 1 && bc[0]->canceled() && bc[1]->canceled(), 4)')
+bcs('cancel_vs_finish', ['CANCEL(0)', 'FINISH(0)'], 'vf_check((ret[0] == 1) != (ret[1] == 1), 2); vf_check(ret[0] == 1 ? (resumed[0] == 1 && bc[0]->canceled() && !proxy[0].awaiter()) : (resumed[0] == 0 && !bc[0]->canceled() && proxy[0].awaiter().address() == (void*)&frames[0]), 3)')
+bcs('two_cancels', ['CANCEL(0)', 'CANCEL(0)'], 'vf_check((ret[0] == 1) != (ret[1] == 1) && resumed[0] == 1, 2)')
 CX2FIN = 'vf_check(resumed[1] == 0 && finished[1] == 0, 6); SET(1, 43); vf_check(resumed[1] == 1 && has_value[1] == 1 && value[1] == 43 && in_exec_at_resume[1] == 1, 7)'
 S('cx2_cancel_vs_new_wait', 'coro/cx2.cpp', {'assert': 'C13'}, std=20, defs=['VF_T0=CANCEL(0)', 'VF_T1=START(1)', 'VF_FINAL=vf_check(cancel_ret[0] == 1 && resumed[0] == 1 && has_value[0] == 0 && in_exec_at_resume[0] == 1, 4); ' + CX2FIN], extra=CXX_, tiers=DEV, bound=2)
 S('cx2_finish_vs_new_wait', 'coro/cx2.cpp', {'assert': 'C13'}, std=20, defs=['VF_T0=SET(0, 42)', 'VF_T1=START(1)', 'VF_FINAL=vf_check(resumed[0] == 1 && has_value[0] == 1 && value[0] == 42 && in_exec_at_resume[0] == 1, 4); ' + CX2FIN], extra=CXX_, tiers=DEV, bound=2)
@@ -397,7 +406,7 @@ LEVEL_TEXT = {
  'C08': 'Real FutureContext<two-word value, VS> / CountDownLatch: set_value vs on_finish (before/after/concurrent) vs get / wait_for(symbolic timeout incl. negative and the 2^16 largest values, symbolic monotone ns clock < 2^16); callbacks once with the value, get returns it, wait_for true => ready, false => time elapsed; STUCK query for get.',
  'C09': 'Real Epoch (x86-64 tick): reader regions (accessor, nested, moved between threads, second slot, released/unlocked accessor) vs unlink+tick+low_water_mark; a reader that still sees the old cell never observes it reclaimed; released/unlocked accessors do not hold the mark back. sc/tso/arm.',
  'C10': 'Sequential mode on the real keep_reclaim(): 0-2 retires, optional reader region closing at a symbolic back-off sleep, stop marker; every reclaimer exactly once, never while the region is open, before the collector returns; plus a region-enter and a retire injected during the queue intake of the collector (reclaimer move-constructor as re-entrant scheduling hook; plain and wrapped two-part intake): that object is never reclaimed while the region is open. Batch retirement with explicit older epochs (retire(r, epoch)) mixed with ordinary retires, so that one intake batch is not ascending, with a region opened at a symbolic point: exactly once, never early. A concurrent collector thread is outside: the three scenarios built for it do not finish within 25 minutes and are not registered.',
- 'C13': 'Real coroutine futex.cpp + DepositBox with hand-made coroutine frames (real await_suspend, resume through the bound executor): wake_one / wake_all / cancel / new waiter races for 2 waiters; each suspension resumed exactly once on its executor, wake_one resumes a non-cancelled waiter if one exists, non-matching value does not suspend. Real C++20 coroutines (clang -O1 coroutine lowering is part of the IR): a Task on a harness executor co_awaits Cancellable<Task> whose inner task awaits a Future (set_value / cancellation token / double cancel in a symbolic sequential order), a Future, and a Task awaiting a Future: resumed exactly once on its executor, value iff cancellation lost, the loser reports false, the deposit-box slot is given back. cancel || set_value on two threads and two racing cancellable waits are built but not registered (dev tier).',
+ 'C13': 'Real coroutine futex.cpp + DepositBox with hand-made coroutine frames (real await_suspend, resume through the bound executor): wake_one / wake_all / cancel / new waiter races for 2 waiters; each suspension resumed exactly once on its executor, wake_one resumes a non-cancelled waiter if one exists, non-matching value does not suspend. Real C++20 coroutines (clang -O1 coroutine lowering is part of the IR): a Task on a harness executor co_awaits Cancellable<Task> whose inner task awaits a Future (set_value / cancellation token / double cancel in a symbolic sequential order), a Future, and a Task awaiting a Future: resumed exactly once on its executor, value iff cancellation lost, the loser reports false, the deposit-box slot is given back. The bookkeeping behind Cancellable (real BasicCancellable + DepositBox, hand-made frames): cancel || finish, cancel || cancel of one wait, and the winner of wait A racing the start of wait B on another thread (slot recycling): each awaiter resumed exactly once by its own trigger, exactly one trigger wins. Two OS threads on real coroutine frames are built but not registered (dev tier, not finishing).',
  'C14': 'Real IdAllocator<uint32_t> (pop vs pop-push-pop ABA, mint race, reuse when free values exist, symbolic alloc/free history of 4 ops vs reference set incl. for_each and end()) and DepositBox (2-3 takers one winner, stale id never matches across slot reuse). ThreadId across three sequential thread generations in two id spaces: stable within a thread, the value of an exited thread is reused with a new version, end() does not grow, for_each reports exactly the live thread. Concurrent thread exit/creation is outside.',
  'C15': 'Real ConcurrentTransientTopic<two-word payload, VS>: publish / publish_n / close vs 1-2 consumers (consume, consume(2)), two publishers; exact sequence then end marker, payload fully visible, STUCK query for consumers. clear()/reuse outside.',
  'C16': 'Real ConcurrentExecutionQueue with a harness Executor (inline / parked consumer): items consumed exactly once, never two consumers at once (plain-access detector), no item stranded once every accepted consumer has run. join() and two sequential items are thorough-tier; concurrent refused-launch races are outside (built, not finishing, not registered; the sequential symbolic refusal schedule covers the refusal logic).',
